@@ -76,9 +76,11 @@ impl CliOpts {
         }
         let mut c = Cfg::new(proto).range(self.min.unwrap_or(60), self.max.unwrap_or(300)).flags(self.ext, self.buffer);
         if !kinds.is_empty() {
-            // rate and the unsafe flag describe the mutators; without mutators they have nothing to act on
             c = c.muts(&kinds, self.rate.unwrap_or(0.1).clamp(0.0, 1.0), self.unsafe_mut);
         }
+        // equal options: --unsafe-mutations is the builder's with_unsafe_mutations(true) whether or not mutators are listed
+        // (the library's STACK_GLOBAL guard reads the flag on its own); the rate has nothing to act on without mutators
+        c.unsafe_mut = self.unsafe_mut;
         c
     }
     fn expected(&self) -> Result<Vec<u8>, String> {
@@ -152,6 +154,26 @@ fn cli_matrix(quick: bool) -> Vec<CliOpts> {
                 o.rate = *r;
                 o.mutators = vec!["all".into()];
                 v.push(o);
+            }
+            // a flag on its own, at the protocols where it matters
+            for p in [2u8, 4, 5] {
+                for (uns, e, bf) in [(true, false, false), (true, true, true), (false, true, false), (false, false, true)] {
+                    let mut o = b.clone();
+                    o.protocol = Some(p);
+                    o.unsafe_mut = uns;
+                    o.ext = e;
+                    o.buffer = bf;
+                    v.push(o);
+                }
+                for m in [vec!["bitflip".to_string()], vec!["all".to_string()]] {
+                    for r in [0.0, 1.0] {
+                        let mut o = b.clone();
+                        o.protocol = Some(p);
+                        o.mutators = m.clone();
+                        o.rate = Some(r);
+                        v.push(o);
+                    }
+                }
             }
         }
         let mut i = 0usize;
@@ -253,7 +275,26 @@ pub fn c13(tier: &str) -> i32 {
     let mut batch_runs = 0;
     for samples in [0usize, 1, 3, 17] {
         for threads in [1, 2, 16] {
-            for o in [CliOpts::base(7), CliOpts { protocol: Some(5), ext: true, buffer: true, mutators: vec!["all".into()], unsafe_mut: true, rate: Some(0.5), min: Some(5), max: Some(30), ..CliOpts::base(42) }] {
+            let mut batch_opts = vec![CliOpts::base(7), CliOpts { protocol: Some(5), ext: true, buffer: true, mutators: vec!["all".into()], unsafe_mut: true, rate: Some(0.5), min: Some(5), max: Some(30), ..CliOpts::base(42) }];
+            if samples == 3 && threads == 2 {
+                // every option on its own (and the flag / rate corners) through the batch code path, which builds its generators separately
+                let b = CliOpts { protocol: Some(4), ..CliOpts::base(11) };
+                batch_opts.push(CliOpts { unsafe_mut: true, ..b.clone() });
+                batch_opts.push(CliOpts { unsafe_mut: true, protocol: Some(5), ext: true, buffer: true, ..b.clone() });
+                batch_opts.push(CliOpts { ext: true, ..b.clone() });
+                batch_opts.push(CliOpts { buffer: true, protocol: Some(5), ..b.clone() });
+                batch_opts.push(CliOpts { min: Some(3), max: Some(9), ..b.clone() });
+                batch_opts.push(CliOpts { min: Some(9), max: Some(3), ..b.clone() });
+                batch_opts.push(CliOpts { protocol: None, ..b.clone() });
+                for m in [vec!["bitflip".to_string()], vec!["all".to_string()], vec!["offbyone".to_string(), "memoindex".to_string()], vec!["all".to_string(), "character".to_string()]] {
+                    for r in [None, Some(0.0), Some(1.0), Some(7.5)] {
+                        for uns in [false, true] {
+                            batch_opts.push(CliOpts { mutators: m.clone(), rate: r, unsafe_mut: uns, ..b.clone() });
+                        }
+                    }
+                }
+            }
+            for o in batch_opts {
                 let d = scratch("batch");
                 let out = Command::new(&cli).arg("--dir").arg(&d).arg("--samples").arg(samples.to_string()).args(o.argv()).env("RAYON_NUM_THREADS", threads.to_string()).output();
                 batch_runs += 1;
@@ -337,6 +378,8 @@ pub fn c13(tier: &str) -> i32 {
             v.push((vec![("INPUT_MUTATORS", "all".into()), ("INPUT_UNSAFE_MUTATIONS", "true".into()), ("INPUT_MUTATION_RATE", "0.5".into())], CliOpts { mutators: vec!["all".into()], unsafe_mut: true, rate: Some(0.5), ..b.clone() }));
             v.push((vec![("INPUT_MUTATORS", "all,bitflip".into()), ("INPUT_MUTATION_RATE", "1.0".into())], CliOpts { mutators: vec!["all".into(), "bitflip".into()], rate: Some(1.0), ..b.clone() }));
             v.push((vec![("INPUT_MUTATORS", "offbyone, all".into()), ("INPUT_UNSAFE_MUTATIONS", "true".into()), ("INPUT_MUTATION_RATE", "0.5".into())], CliOpts { mutators: vec!["offbyone".into(), "all".into()], unsafe_mut: true, rate: Some(0.5), ..b.clone() }));
+            v.push((vec![("INPUT_UNSAFE_MUTATIONS", "true".into()), ("INPUT_PROTOCOL", "4".into())], CliOpts { unsafe_mut: true, protocol: Some(4), ..b.clone() }));
+            v.push((vec![("INPUT_MUTATORS", "bitflip".into()), ("INPUT_MUTATION_RATE", "0".into()), ("INPUT_PROTOCOL", "4".into())], CliOpts { mutators: vec!["bitflip".into()], rate: Some(0.0), protocol: Some(4), ..b.clone() }));
             v.push((vec![("INPUT_MUTATORS", "offbyone, bitflip".into()), ("INPUT_MUTATION_RATE", "1.0".into())], CliOpts { mutators: vec!["offbyone".into(), "bitflip".into()], rate: Some(1.0), ..b.clone() }));
             v.push((vec![("INPUT_MUTATORS", "stringlen,character,boundary".into()), ("INPUT_MUTATION_RATE", "0.5".into())], CliOpts { mutators: vec!["stringlen".into(), "character".into(), "boundary".into()], rate: Some(0.5), ..b.clone() }));
             v.push((vec![("INPUT_MUTATORS", "offbyone,bitflip,offbyone".into()), ("INPUT_MUTATION_RATE", "0.5".into())], CliOpts { mutators: vec!["offbyone".into(), "bitflip".into(), "offbyone".into()], rate: Some(0.5), ..b.clone() }));
